@@ -38,10 +38,12 @@ class Oracle:
     """The physics of one TLC behaviour. Questions the behaviour never asked (the code left the model) get a
     deterministic default so that the run can still be completed and judged; `extended` counts them."""
 
-    def __init__(self, memo_pairs, lenient=True):
+    def __init__(self, memo_pairs, lenient=True, ext=None):
         self.memo = {}
         self.lenient = lenient
         self.extended = 0
+        self.ext = dict(ext or {})      # preset answers for questions outside the behaviour
+        self.new_keys = []              # questions answered by default in this run: (key, options)
         for k, v in memo_pairs:
             self.memo[(fkey(k[0]), k[1])] = v
 
@@ -72,17 +74,22 @@ class Oracle:
             if not self.lenient:
                 raise Divergence(f"oracle has no answer for {fid} at {lvl}") from None
             self.extended += 1
-            h = zlib.crc32(repr((fid, lvl)).encode())
             if lvl == "cnt":
-                v = 2
+                opts = (2, 3)
             elif lvl == "root":
-                v = 77000
+                opts = (115000, 77000)
             elif lvl == "max":
-                v = (-3, 3, -4, 4)[h % 4]  # distinct from the model's values: no accidental ties
+                used = {x for (kk, ll), x in self.memo.items() if ll == "max"}
+                opts = tuple(x for x in (-7, 7, -9, 9, -11, 11) if x not in used)[:2] or (-13, 13)
             else:
-                v = (-1, 1)[h % 2]
+                opts = (1, -1)
                 if (fid, "max") in self.memo and self.memo[(fid, "max")] > 0:
-                    v = 1  # keep the extension physical (more height never hurts)
+                    opts = (1,)     # keep the extension physical (more height never hurts)
+            if (fid, lvl) in self.ext:
+                v = self.ext[(fid, lvl)]
+            else:
+                v = opts[0]
+                self.new_keys.append(((fid, lvl), opts))
             self.memo[(fid, lvl)] = v
             return v
 
@@ -282,7 +289,7 @@ def install():
     return sr, ghx
 
 
-def run_behaviour(beh: dict, max_iter: int | None = None):
+def run_behaviour(beh: dict, max_iter: int | None = None, ext=None):
     """Run the real code for one TLC behaviour. Returns (record, mismatches)."""
     global REC, ORA, MODE  # noqa: PLW0603
     sr, ghx = install()
@@ -293,7 +300,7 @@ def run_behaviour(beh: dict, max_iter: int | None = None):
 
     MODE = beh["mode"]
     cfg = beh["cfg"]
-    ORA = Oracle(beh["memo"])
+    ORA = Oracle(beh["memo"], ext=ext)
     REC = Recorder()
     cap = cfg["cap"] or None
     sp = SimulationParameters(1, 12, MAXA, MINA, HMAX, HMIN, max_boreholes=cap, continue_if_design_unmet=cfg["cont"])
